@@ -260,6 +260,27 @@ fn main() {
             }
             println!("miri-done cases={} nontrivial={}", count, nontrivial);
         }
+        "decode" => {
+            // print the decoded case of a replay / hang file without running it
+            let file = arg(&args, "--file").expect("--file");
+            let text = std::fs::read_to_string(&file).expect("read replay");
+            let get = |k: &str| -> Option<String> {
+                let pat = format!("\"{}\":", k);
+                let i = text.find(&pat)? + pat.len();
+                let rest = text[i..].trim_start();
+                let rest = rest.strip_prefix('"')?;
+                let j = rest.find('"')?;
+                Some(rest[..j].to_string())
+            };
+            let prop = arg(&args, "--prop").or_else(|| get("property")).expect("property");
+            let bytes = driver::unhex(&get("bytes").expect("bytes"));
+            let storm = get("engine").as_deref() == Some("storm");
+            let e = if storm { storm_engine_for(&prop, Tier::Quick).map(|x| x.0) } else { engine_for(&prop, Tier::Quick).map(|x| x.0) };
+            match e {
+                Some(e) => println!("case: {}", e.describe(&bytes)),
+                None => std::process::exit(2),
+            }
+        }
         "show" => {
             silent_panics();
             let prop = arg(&args, "--prop").expect("--prop");
